@@ -801,13 +801,23 @@ struct AltSession final : Session {
         A.v     = v;
     }
 
-    // emplace<J>(how): how 0 = from int, 1 = from T const&, 2 = from T&&
+    // emplace<J>(how): how 0 = from int, 1 = from T const&, 2 = from T&&; variant only: 3 = `v = T const&`, 4 = `v = T&&`
     template <int J, typename EJ>
     bool emplace_j(T& a, int how, int v)
     {
         if constexpr (O == Own::var) {
             if (how == 0) { Window w; a.template emplace<J>(v); return true; }
             if (how == 1) {
+                if constexpr (copyable) { EJ x(v); { Window w; a.template emplace<J>(std::as_const(x)); } return true; }
+                else { return false; }
+            }
+            if (how == 2) {
+                EJ x(v);
+                { Window w; a.template emplace<J>(std::move(x)); }
+                return true;
+            }
+            // converting assignment `variant = T const&` (3) / `variant = T&&` (4)
+            if (how == 3) {
                 if constexpr (copyable) { EJ x(v); { Window w; a = std::as_const(x); } return true; }
                 else { return false; }
             }
@@ -847,8 +857,9 @@ struct AltSession final : Session {
         auto& B     = abs[o];
         auto const& op = l.op;
 
-        if (op == "vemplace" || op == "vemplace_c" || op == "vemplace_m") {
-            int const how = op == "vemplace" ? 0 : (op == "vemplace_c" ? 1 : 2);
+        bool const conv = O == Own::var && (op == "vassign_c" || op == "vassign_m");
+        if (op == "vemplace" || op == "vemplace_c" || op == "vemplace_m" || conv) {
+            int const how = op == "vemplace" ? 0 : (op == "vemplace_c" ? 1 : (op == "vemplace_m" ? 2 : (op == "vassign_c" ? 3 : 4)));
             int const j   = static_cast<int>(l.i("j"));
             int const v   = static_cast<int>(l.i("v"));
             bool ok       = false;
